@@ -1,5 +1,6 @@
 """Helpers for metamorphic checks: YAML document manipulation and directory comparison."""
 import copy
+import re
 
 import yaml
 
@@ -38,6 +39,8 @@ def get_node(doc, path):
 
 def decl_kind(node):
     d = (node.get("decl") or "").strip()
+    # attributes are not part of the C++ declaration
+    d = re.sub(r"\+\w+(\((?:[^()]|\([^()]*\))*\)|=\S+)?", "", d)
     if "block" in node:
         return "block"
     first = d.split()[0] if d.split() else ""
